@@ -421,6 +421,9 @@ def realperiod_lane(st, rng):
     import skepticoin.datatypes as dt
     import skepticoin.signing as sg
     P = ref.RETARGET_PERIOD
+    # the deep fingerprint is quadratic in chain length; with a 10k prefix use object identity of the persistent maps
+    st.fingerprint = lambda cs: (id(cs.block_by_hash), id(cs.unspent_transaction_outs_by_hash),
+                                 id(cs.block_by_height_by_hash), id(cs.heads), cs.current_chain_hash, len(cs.block_by_hash))
     world = gen.World(rng)
     world.chain.ledger_cache = False
     world.dt_choices = None
